@@ -511,6 +511,8 @@ private:
         void stackDown(int count = 1)
         {
             stackLevel -= count;
+            if(stackLevel < -1)
+                stackLevel = -1; // A stack loop end without its begin: stay out of the loop
         }
 
         LoopStackEntry &getCurStack()
